@@ -234,13 +234,13 @@ func (tp *typeParser) parse(gt reflect.Type, allowPtr bool) (*Type, error) {
 	case reflect.Bool:
 		return &Type{K: Bool}, kw("bool")
 	case reflect.Int8:
-		return &Type{K: I8}, kw("i8", "byte")
+		return &Type{K: I8}, kw("i8", "byte", "int8")
 	case reflect.Int16:
-		return &Type{K: I16}, kw("i16")
+		return &Type{K: I16}, kw("i16", "int16")
 	case reflect.Int32:
-		return &Type{K: I32}, kw("i32")
+		return &Type{K: I32}, kw("i32", "int32")
 	case reflect.Float64:
-		return &Type{K: Double}, kw("double")
+		return &Type{K: Double}, kw("double", "float64")
 	case reflect.String:
 		return &Type{K: String}, kw("string")
 	case reflect.Int64, reflect.Int:
@@ -258,6 +258,9 @@ func (tp *typeParser) parse(gt reflect.Type, allowPtr bool) (*Type, error) {
 		name, err := tp.ident()
 		if err != nil {
 			return nil, err
+		}
+		if gt == reflect.TypeOf(int64(0)) && name == "int64" {
+			return plain, nil // the builtin type annotated with its own Go name is a plain i64
 		}
 		if gt == reflect.TypeOf(int64(0)) || name != gt.Name() {
 			return nil, fmt.Errorf("annotation %q does not match Go type %v", name, gt)
